@@ -8,6 +8,7 @@ import (
 
 	"verif/internal/hx"
 	"verif/internal/refdl"
+	rx "verif/internal/refexpr"
 	"verif/internal/sup"
 )
 
@@ -17,7 +18,8 @@ import (
 // Reset before this one; the content arrives as a snapshot (LoadPolicies); both.
 func c04S6(c *sup.Ctx) *sup.Space {
 	lists := policyLists(c04Policies, 2)
-	routes := []string{"two earlier requests, Reset after each", "LoadPolicies(snapshot of the content)", "an earlier request, Reset, LoadPolicies(snapshot)"}
+	routes := []string{"two earlier requests, Reset after each", "LoadPolicies(snapshot of the content)", "an earlier request, Reset, LoadPolicies(snapshot)",
+		"the token is the first of two attenuations of a parent that already carries three blocks; the second (whose check fails) is made afterwards"}
 	// the earlier requests make every policy atom true, carry a failing check and a deny-all policy
 	var all []refdl.Atom
 	for _, n := range c04PolAtoms {
@@ -59,7 +61,40 @@ func c04S6(c *sup.Ctx) *sup.Space {
 			s.Blocks = []refdl.Block{{Checks: []refdl.Check{chk(qTrue)}}, {Checks: []refdl.Check{chk(qFalse)}}}
 		}
 		human := fmt.Sprintf("%s; content reaches the authorizer by: %s", s.String(), routes[route])
-		tok, err := cachedToken(w, s.Authority, s.Blocks)
+		var tok *biscuit.Biscuit
+		var err error
+		if route == 3 {
+			// three empty blocks, then the scenario's blocks (at least one), with a sibling in between
+			own := append([]refdl.Block{}, s.Blocks...)
+			if len(own) == 0 {
+				own = []refdl.Block{{}}
+			}
+			var parent *biscuit.Biscuit
+			parent, err = hx.Token(1, 7, s.Authority, []refdl.Block{{}, {}, {}})
+			if err == nil {
+				tok = parent
+				for k, b := range own {
+					bb := tok.CreateBlock()
+					if err = hx.FillBlock(bb, b); err != nil {
+						break
+					}
+					if tok, err = tok.Append(hx.NewRNG(uint64(300+k)), bb.Build()); err != nil {
+						break
+					}
+					if k == 0 {
+						sb := parent.CreateBlock()
+						hx.FillBlock(sb, refdl.Block{Facts: []refdl.Atom{atom("sibling", rx.Str("only"))}, Checks: []refdl.Check{chk(qFalse)}})
+						if _, e := parent.Append(hx.NewRNG(399), sb.Build()); e != nil {
+							err = e
+							break
+						}
+					}
+				}
+			}
+			s.Blocks = append([]refdl.Block{{}, {}, {}}, own...)
+		} else {
+			tok, err = cachedToken(w, s.Authority, s.Blocks)
+		}
 		if err != nil {
 			w.Violate("S6:token-build-failed", human, err.Error(), "a token")
 			return
@@ -77,6 +112,8 @@ func c04S6(c *sup.Ctx) *sup.Space {
 			a.Reset()
 		}
 		switch route {
+		case 3:
+			hx.Load(a, s.Auth, s.Policies)
 		case 0:
 			round(0)
 			round(1)
